@@ -1,4 +1,5 @@
 """C12 - duration arithmetic: type-level clause (W-TYPES) + ordering rules for floor/ceil/round (added later)."""
+import re
 from witness import wit, c12 as gen
 
 META = ("W-TYPES: result types, well-formedness and convertibility of duration/time_point arithmetic, common_type, "
@@ -537,6 +538,50 @@ def compound_rule(chk, db):
         chk.analysis_broken("COMPOUND: only %d compound / binary arithmetic operators of duration / time_point found (floor 6)" % n)
 
 
+FIXED_ARITH = re.compile(r"^(const\s+)?((etl::)?(u?intmax_t|u?int(_least|_fast)?(8|16|32|64)_t|ptrdiff_t|size_t|ssize_t)|"
+                         r"((un)?signed\s+)?(char|short|int|long|long long|long int|long long int)(\s+(un)?signed)?|unsigned|signed|"
+                         r"float|double|long double)$")
+
+
+def repcast_rule(chk, db):
+    """REPCAST: the generic duration / time_point templates compute in the representation types they are given (Rep,
+    common_type_t<...>, CR, To::rep): a tick count (`x.count()`) cast to a *fixed* builtin arithmetic type truncates a
+    floating-point representation and narrows a wide one. Every explicit cast in those templates whose operand mentions
+    count() has a destination type that depends on a template parameter or names a rep typedef."""
+    files = ("_chrono/duration.hpp", "_chrono/duration_cast.hpp", "_chrono/time_point.hpp", "_chrono/time_point_cast.hpp",
+             "_chrono/floor.hpp", "_chrono/ceil.hpp", "_chrono/round.hpp", "_chrono/abs.hpp")
+    n = 0
+    for f in db.funcs:
+        if f.get("body") is None or f["file"] not in files:
+            continue
+        tps = [tp["n"] for tp in (f.get("tparams") or []) if tp.get("k") == "type"]
+        rec = db.record(f.get("record")) if f.get("record") else None
+        if rec is not None:
+            tps += [tp["n"] for tp in (rec.get("tparams") or []) if tp.get("k") == "type"]
+        if not tps:
+            continue
+        for x in astx.all_exprs(f, into_lambdas=True):
+            if x.get("k") not in ("cast", "construct"):
+                continue
+            ty = (x.get("ty") or "").strip()
+            inner = [x.get("e")] if x.get("k") == "cast" else list(x.get("a") or [])
+            if not any(y.get("k") == "call" and astx.callee(y)[0] == "count" and not y["a"]
+                       for i in inner if i is not None for y in astx.walk_expr(i)):
+                continue
+            n += 1
+            label = "%s :: `%s`" % (astx.sig(f), astx.show(x, 60))
+            chk.instance("REPCAST")
+            fixed = bool(FIXED_ARITH.match(ty))
+            chk.obligation("REPCAST", label, not fixed)
+            if fixed:
+                chk.violation("REPCAST", label, "count-cast-to-fixed-type",
+                              "%s: a tick count is converted to the fixed type `%s`; the representation is a template argument "
+                              "(floating-point and wider integer reps are valid), so the arithmetic belongs in the common rep"
+                              % (astx.loc(f, x), ty), {"where": astx.loc(f)})
+    if n < 3:
+        chk.analysis_broken("REPCAST: only %d casts of tick counts found in the duration templates (floor 3)" % n)
+
+
 def abs_rule(chk, db):
     """ABS: chrono::abs(d) is `d` for d >= zero and `zero - d` (or `-d`) for d < zero. The returned expression is evaluated for
     the three orderings of d against zero()."""
@@ -719,6 +764,8 @@ META_EXTRA = 'CAST / CONV (conversion arithmetic skeleton count*num/den in the c
 META = (META[0] + " " + META_EXTRA, META[1])
 META = (META[0] + ' ABS (chrono::abs per ordering of d against zero()).', META[1])
 
+META = (META[0] + ' REPCAST (the duration templates never convert a tick count to a fixed builtin arithmetic type).', META[1])
+
 
 def run(chk, tier):
     quick = tier == "quick"
@@ -731,6 +778,7 @@ def run(chk, tier):
     units_rule(chk, db)
     compound_rule(chk, db)
     abs_rule(chk, db)
+    repcast_rule(chk, db)
     from ..rules import rel as _REL
     nrel = _REL.check(chk, db, ["_chrono/time_point.hpp", "_chrono/duration.hpp"])      # REL: the relational operators over the ordering domain
     if chk.rule_instances.get("REL", 0) < 8:
